@@ -884,18 +884,62 @@ impl NodeId {
         }
         debug_assert!(arena[self].is_detached());
     }
-    #[verifier::external_body]
-    pub fn remove_subtree<T>(self, arena: &mut Arena<T>) {
+    pub fn remove_subtree<T>(self, arena: &mut Arena<T>)
+        // @props C01 C02 C04 C06 C07 C08 C12
+        requires
+            old(arena).wf(),
+            old(arena).live(self),
+        ensures
+            // @ob C01.wf@remove_subtree C01 C02 C12
+            final(arena).wf(),
+            final(arena).nodes@.len() == old(arena).nodes@.len(),
+            // @ob C12.remove_subtree_removes_the_node C12 C04
+            final(arena).at(self).stamp.removed(),
+    {
         self.detach(arena);
+        let ghost w = choose|w: Ranks| ranked(arena.nodes@, w);
+        let ghost s1 = arena.nodes@;
         let mut cursor = Some(self);
-        while let Some(id) = cursor {
+        while let Some(id) = cursor
+            invariant
+                arena.wf(),
+                ranked(arena.nodes@, w),
+                arena.nodes@.len() == s1.len(),
+                self.idx() < s1.len(),
+                cursor is Some ==> tgt_ok(arena.nodes@, cursor) && in_sub(arena.nodes@, w, self.idx(), cursor->0.idx()),
+                cursor is Some ==> arena.live(self) && arena.at(self).parent is None,
+                cursor is None ==> arena.at(self).stamp.removed(),
+            ensures
+                cursor is None,
+            // @ob C02.remove_subtree_terminates C02
+            decreases live_count(arena.nodes@), (if cursor is Some { w.bound - (w.depth)(cursor->0.idx()) } else { 0 }),
+        {
+            let ghost s_in = arena.nodes@;
+            proof {
+                lemma_links_live(s_in, id.idx());
+                assert(ranked_at(s_in, w, id.idx()));
+                lemma_id_eq_from_live(s_in, id);
+            }
             let node = &arena[id];
             cursor = if let Some(first_child) = node.first_child {
+                proof {
+                    lemma_first_child_in_sub(s_in, w, self.idx(), id);
+                }
                 Some(first_child)
             } else {
                 let parent = node.parent;
                 id.detach(arena);
+                let ghost s_mid = arena.nodes@;
+                proof {
+                    lemma_links_live(s_in, id.idx());
+                    lemma_parent_has_both_none(s_in, id.idx());
+                }
                 arena.free_node(id);
+                proof {
+                    lemma_live_count_same(s_in, s_mid);
+                    lemma_live_count_free(s_mid, arena.nodes@, id.idx());
+                    lemma_leaf_removed_frame(s_in, s_mid, arena.nodes@, w, self.idx(), id);
+                }
                 parent
             };
         }
